@@ -274,6 +274,10 @@ func (fr *Frame) oblige(kind, label string, props []string, goal *Term, pos toke
 	if ex.c != nil && (kind == "safe" || kind == "term" || strings.HasPrefix(kind, "loop") && strings.HasPrefix(label, "variant") || len(props) == 0) {
 		props = unionProps(props, ex.c.Props)
 	}
+	if ex.c != nil && variantOf(ex.fname) != "" {
+		// a contract variant serves only the properties it names
+		props = ex.c.Props
+	}
 	o := &Obligation{hints: ex.hints, blk: ex.curBlk, factBlk: ex.factBlk, ex: ex, base: base, pos: pos, Name: name, Func: ex.fname, Kind: kind, Props: props, NFacts: len(ex.facts), Facts: ex.facts, Goal: g, Where: ex.p.srcLine(pos)}
 	if g == TTrue {
 		// holds by construction of the terms (e.g. code and spec build the same term)
@@ -306,7 +310,7 @@ func (ex *Exec) heapGet(st *State, key string, fs *Sort) *Term {
 }
 
 func (ex *Exec) fname0() string {
-	return strings.NewReplacer("(", "", ")", "", "*", "", ".", "_").Replace(ex.fname)
+	return strings.NewReplacer("(", "", ")", "", "*", "", ".", "_", "#", "_").Replace(ex.fname)
 }
 
 // ---- zero values ----
